@@ -22,7 +22,8 @@ RULE = ("batches of length 0-8 over a pool of 5 distinct elements (values from t
         '; round 12: batches of 300+ elements with early and middle failures, first failure raised'
         '; round 13: ignore_result batches over memoized elements'
         '; round 14: every third batch under the function\'s own context arguments'
-        '; round 15: dates / timestamps next to their spellings as elements; elements whose body evaluates a batch of its own')
+        '; round 15: dates / timestamps next to their spellings as elements; elements whose body evaluates a batch of its own'
+        '; round 17: elements passing one and the same list / dictionary object to a body that uses its arguments up')
 ASSUMPTIONS = ["elements raising not-to-be-memoized exceptions are exempt from the at-most-once rule",
                "store states are compared as sets of (qualified name, argument hash, result type, value)"]
 TIMEOUT = 600
